@@ -60,3 +60,11 @@ Theorem C13_unmarshal_model_is_the_source : forall bk n data, wf_bytes data -> (
              firstn (Z.to_nat (snd o')) (fst o') = outconf_unmarshal bk data.
 Proof. exact unmarshal_conf_agrees. Qed.
 Print Assumptions C13_unmarshal_model_is_the_source.
+
+(* and OutputConfiguration.Marshal as regenerated from the source (make, the range loop over the settings, the two
+   PutUint16 of Uint16() and of the frequency) yields exactly outconf_marshal of the configuration's elements and no
+   error - for every backing array, length and contents with frequencies in their Go type's range *)
+Theorem C13_marshal_model_is_the_source : forall bk n, (n <= length bk)%nat -> Forall freq_typed (firstn n bk) ->
+  g_OutputConfiguration_Marshal (bk, Z.of_nat n) = Val (outconf_marshal (firstn n bk), None).
+Proof. exact marshal_conf_agrees_typed. Qed.
+Print Assumptions C13_marshal_model_is_the_source.
